@@ -409,6 +409,78 @@ func c09Run(c *core.Ctx) {
 		}
 	}
 
+	// (2d) two builders alive at the same time: every interleaving history <= 7 over {record, record named,
+	// advance, line, request the map} on builder 1 / builder 2 (builder 2 is created at its first use); each
+	// builder's map must decode to its own recorded mappings
+	{
+		type op struct {
+			who, what int
+		}
+		var all []op
+		for who := 0; who < 2; who++ {
+			for what := 0; what < 5; what++ {
+				all = append(all, op{who, what})
+			}
+		}
+		depth := 6
+		if c.Thorough() {
+			depth = 7
+		}
+		h := make([]op, 0, depth)
+		var rec func(d int)
+		rec = func(d int) {
+			if d >= 3 && c.Next() && !c.Tick() {
+				c.Inc("two_builder_histories")
+				ms := [2]*sourcemap.SourceMapper{}
+				mods := [2]*ref.MapModel{}
+				for i, o := range h {
+					if ms[o.who] == nil {
+						ms[o.who] = sourcemap.New()
+						mods[o.who] = ref.NewMapModel()
+					}
+					m, mod := ms[o.who], mods[o.who]
+					switch o.what {
+					case 0:
+						m.AddMapping(i, 2*i+o.who)
+						mod.Add(i, 2*i+o.who)
+					case 1:
+						nm := []string{"p", "q"}[(i+o.who)%2]
+						m.AddNamedMapping(1, i, nm)
+						mod.AddNamed(1, i, nm)
+					case 2:
+						m.AdvanceColumn(3 + o.who)
+						mod.AdvCol(3 + o.who)
+					case 3:
+						m.AdvanceLine()
+						mod.AdvLine()
+					case 4:
+						if k, dd := smCompare(m.SourceMap(), mod); k != "" {
+							c.Violate(core.Violation{Kind: "two-builders-" + k, Case: fmt.Sprint(h[:i+1]), Detail: core.Short(dd, 500), Size: i + 1, Sig: "two-builders-" + k})
+							return
+						}
+					}
+				}
+				for w := 0; w < 2; w++ {
+					if ms[w] != nil {
+						if k, dd := smCompare(ms[w].SourceMap(), mods[w]); k != "" {
+							c.Violate(core.Violation{Kind: "two-builders-" + k, Case: fmt.Sprint(h), Detail: core.Short(dd, 500), Size: len(h), Sig: "two-builders-" + k})
+							return
+						}
+					}
+				}
+			}
+			if d == depth {
+				return
+			}
+			for _, o := range all {
+				h = append(h, o)
+				rec(d + 1)
+				h = h[:len(h)-1]
+			}
+		}
+		rec(0)
+	}
+
 	// (3) explicit-state BFS with abstract-state dedup beyond the stateless depth (shard 0 only, so that
 	// the state count is a count of distinct abstract states)
 	if c.Shard == 0 {
